@@ -158,3 +158,24 @@ def _c14_elif(rec):
     d = rec.get("detail") or {}
     return rec.get("kind") == "tree_differs_from_reference_substitution" and any(
         str(t).startswith("elif") for t in d.get("applied_texts") or [])
+
+
+# ----------------------------------------------------------------------------------------- C17
+@classifier("sum-closed-form-assumes-nonempty-range")
+def _c17_sum_empty(rec):
+    """simplify_math_iterators / inline_math_comprehensions replace sums over ranges by the closed form
+    (b - 1) * b / 2 - (a - 1) * a / 2, which is only valid when the range is not empty (b >= a): sum(range(-2)) -> 3,
+    sum(range(x)) is wrong for x < 0."""
+    rule, before, after = _step(rec)
+    return (rec.get("kind") == "formula_value_differs" and rule in ("symbolic_math.simplify_math_iterators", "fixes.inline_math_comprehensions", "main.format_code")
+            and set(rec.get("difference_causes") or ["other"]) <= {"empty_range", "float_rounding"} and "empty_range" in (rec.get("difference_causes") or [])
+            and "range(" in (before or ""))
+
+
+@classifier("sum-closed-form-float-rounding")
+def _c17_sum_rounding(rec):
+    """Closed forms of degree >= 2 are emitted with true division (x ** 3 / 3 - x ** 2 / 2 + x / 6): the float result is
+    not equal to the integer sum (7e-16 instead of 0)."""
+    rule, before, after = _step(rec)
+    return (rec.get("kind") == "formula_value_differs" and rule in ("symbolic_math.simplify_math_iterators", "fixes.inline_math_comprehensions", "main.format_code")
+            and rec.get("difference_causes") == ["float_rounding"] and "/" in (after or ""))
